@@ -41,6 +41,7 @@ var hostileValues = []struct {
 	{"unknownCurrency", `{"currency":"XYZ","value":"5"}`},
 	{"nullValueAmount", `{"currency":"OLT","value":null}`},
 	{"float", `1.5`},
+	{"one", `1`}, {"two", `2`}, {"three", `3`}, {"four", `4`}, {"five", `5`}, {"six", `6`}, {"seven", `7`}, {"int64", `64`}, {"int255", `255`}, {"int256", `256`}, {"int65536", `65536`},
 	{"delete", ``},
 }
 
